@@ -28,3 +28,37 @@ package ring
 //@ # Every field of a ring entry is compared by RingCompare (a difference rebuilds the indexes and drops the caches),
 //@ # refreshed on every cache hit, or determined by the map key.
 //@ fieldpartition InstanceDesc compared Desc.RingCompare refreshed Ring.getCachedShuffledSubring Ring.getCachedShuffledSubringWithLookback keyed Id property C13
+//@
+//@ # Look-back shard cache (C13). A shard computed for the window start 'lo' is reused for every window start w in
+//@ # [lo, hi]. That is sound only if no member's registration / read-only change time can switch sides of the
+//@ # shuffle-shard comparisons (all of the form "timestamp >= window start") anywhere in [lo, hi]:
+//@ pred windowStable(m map[string]InstanceDesc, lo int64, hi int64) = forall n string, w int64 :: in(n, m) && lo <= w && w <= hi ==>
+//@      ((m[n].RegisteredTimestamp >= w) <==> (m[n].RegisteredTimestamp >= lo)) && ((m[n].ReadOnlyUpdatedTimestamp >= w) <==> (m[n].ReadOnlyUpdatedTimestamp >= lo))
+//@
+//@ func Ring.setCachedShuffledSubringWithLookback
+//@   property C13
+//@   requires subring != nil ==> subring.ringDesc != nil
+//@   ghost var lo int64 = 0
+//@   at after@time.Time.Unix: lo := $r0
+//@   # whatever this call stores is stored under the call's key, for this window start, and is stable up to the stored end
+//@   ensures  stored: forall k subringCacheKey :: in(k, r.shuffledSubringWithLookbackCache) && (!in(k, old(r).shuffledSubringWithLookbackCache) || !same(r.shuffledSubringWithLookbackCache[k], old(r).shuffledSubringWithLookbackCache[k])) ==>
+//@              k.identifier == identifier && k.shardSize == size && k.lookbackPeriod == lookbackPeriod && subring != nil &&
+//@              same(r.shuffledSubringWithLookbackCache[k].subring, subring) &&
+//@              r.shuffledSubringWithLookbackCache[k].validForLookbackWindowsStartingAfter == unix(mktime(ns(now) - lookbackPeriod)) &&
+//@              windowStable(subring.ringDesc.Ingesters, r.shuffledSubringWithLookbackCache[k].validForLookbackWindowsStartingAfter, r.shuffledSubringWithLookbackCache[k].validForLookbackWindowsStartingBefore)
+//@   ensures  others: forall k subringCacheKey :: !(k.identifier == identifier && k.shardSize == size && k.lookbackPeriod == lookbackPeriod) ==>
+//@              (in(k, r.shuffledSubringWithLookbackCache) <==> in(k, old(r).shuffledSubringWithLookbackCache)) && (in(k, r.shuffledSubringWithLookbackCache) ==> same(r.shuffledSubringWithLookbackCache[k], old(r).shuffledSubringWithLookbackCache[k]))
+//@   loop 0 invariant lo == lookbackWindowStart && subring != nil && subring.ringDesc != nil
+//@   loop 0 invariant bound: forall n string :: $visited[n] ==> ($coll[n].RegisteredTimestamp >= lo ==> validForLookbackWindowsStartingBefore <= $coll[n].RegisteredTimestamp) &&
+//@              ($coll[n].ReadOnlyUpdatedTimestamp >= lo ==> validForLookbackWindowsStartingBefore <= $coll[n].ReadOnlyUpdatedTimestamp)
+//@
+//@ # a cached look-back shard is handed out only for a window start inside the entry's validity interval
+//@ func Ring.getCachedShuffledSubringWithLookback
+//@   property C13
+//@   ensures  window: result != nil ==> (exists k subringCacheKey :: k.identifier == identifier && k.shardSize == size && k.lookbackPeriod == lookbackPeriod && in(k, old(r).shuffledSubringWithLookbackCache) &&
+//@              old(r).shuffledSubringWithLookbackCache[k].validForLookbackWindowsStartingAfter <= unix(mktime(ns(now) - lookbackPeriod)) &&
+//@              unix(mktime(ns(now) - lookbackPeriod)) <= old(r).shuffledSubringWithLookbackCache[k].validForLookbackWindowsStartingBefore)
+//@
+//@ # the look-back cache is written only by the setter above and replaced wholesale (emptied) when the topology changes;
+//@ # New builds it empty (composite literal). CleanupShuffleShardCache only deletes.
+//@ fieldwriters Ring.shuffledSubringWithLookbackCache only Ring.setCachedShuffledSubringWithLookback Ring.setRingStateFromDesc property C13
